@@ -5,6 +5,7 @@ package world
 
 import (
 	"bytes"
+	"encoding/json"
 	"fmt"
 	"io"
 	"net/http"
@@ -53,6 +54,7 @@ type World struct {
 	TS   *server.Teamserver
 	Ext  *handlers.External
 	Keys map[uint32]refdemon.Keys
+	Runs int // restarts so far
 }
 
 type Options struct {
@@ -115,6 +117,70 @@ func New(parent string, opt Options) (*World, error) {
 	}
 	w.Ext = w.TS.Listeners[0].Config.(*handlers.External)
 	return w, nil
+}
+
+// Restart stops this teamserver (its database is closed) and starts a new one on the same database file, as a new run with
+// a loot tree of its own.  Listeners and sessions come back the way Teamserver.Start brings them back (that code is inline
+// in Start, which also runs the operator endpoint; the few lines are mirrored here: DB.ListenerAll -> ListenerStart,
+// DB.AgentAll -> AgentAdd, ParentOf / LinksOf -> Pivots, AgentSendNotify).
+func (w *World) Restart() error {
+	old := w.TS
+	if old.DB != nil {
+		old.DB.VerifClose()
+	}
+	w.Runs++
+	ts := server.NewTeamserver(filepath.Join(w.Dir, "data", "ts.db"))
+	if ts == nil {
+		return fmt.Errorf("NewTeamserver failed on restart")
+	}
+	ts.Flags.Server.SendLogs = old.Flags.Server.SendLogs
+	ts.Profile = old.Profile
+	ts.Server.Path = w.Dir
+	ts.Server.Engine = gin.New()
+	w.Loot = filepath.Join(w.Dir, "data", fmt.Sprintf("loot-run%d", w.Runs))
+	logr.LogrInstance = logr.NewLogr(w.Dir, w.Loot)
+	if logr.LogrInstance == nil {
+		return fmt.Errorf("NewLogr failed on restart")
+	}
+	w.TS = ts
+	for _, l := range ts.DB.ListenerAll() {
+		if l["Protocol"] != handlers.AGENT_EXTERNAL {
+			continue
+		}
+		data := map[string]any{}
+		if err := json.Unmarshal([]byte(l["Config"]), &data); err != nil {
+			continue
+		}
+		ep, _ := data["Endpoint"].(string)
+		if err := ts.ListenerStart(handlers.LISTENER_EXTERNAL, handlers.ExternalConfig{Name: l["Name"], Endpoint: ep}); err != nil && err.Error() != "listener already exists" {
+			return err
+		}
+	}
+	w.Ext = nil
+	for _, l := range ts.Listeners {
+		if e, ok := l.Config.(*handlers.External); ok && l.Name == "ext" {
+			w.Ext = e
+		}
+	}
+	if w.Ext == nil {
+		return fmt.Errorf("external listener not restored")
+	}
+	agents := ts.DB.AgentAll()
+	for _, a := range agents {
+		ts.AgentAdd(a)
+	}
+	for _, a := range agents {
+		if parentID, err := ts.ParentOf(a); err == nil {
+			a.Pivots.Parent = ts.AgentInstance(parentID)
+		}
+		for _, id := range ts.LinksOf(a) {
+			a.Pivots.Links = append(a.Pivots.Links, ts.AgentInstance(id))
+		}
+	}
+	for _, a := range agents {
+		ts.AgentSendNotify(a)
+	}
+	return nil
 }
 
 func (w *World) Close() {
